@@ -159,9 +159,13 @@ def type_of(e):
         ia, (da, sa) = type_of(a)
         ib, (db, sb) = type_of(b)
         if op == "matmul":
-            if not sa or not sb or len(sa) > 2 or len(sb) > 2 or sa[-1] != sb[0]:
+            if not sa or not sb:
                 raise IllTyped("matmul shapes")
-            return _merge(ia, ib), ("real", tuple(sa[:-1]) + tuple(sb[1:]))
+            try:
+                shape = np.matmul(np.empty(sa, dtype=np.int8), np.empty(sb, dtype=np.int8)).shape
+            except ValueError:
+                raise IllTyped("matmul shapes")
+            return _merge(ia, ib), ("real", tuple(shape))
         try:
             shape = tuple(np.broadcast_shapes(sa, sb))
         except ValueError:
